@@ -36,6 +36,7 @@ PROPS = {
     'C06': dict(streams=['midix', 'write']),
     'C07': dict(streams=['ticks', 'write']),
     'C08': dict(streams=['midix', 'write']),
+    'C10': dict(streams=['conv', 'wconv', 'note', 'scale']),
     'C11': dict(streams=['variants', 'lex']),
     'C13': dict(streams=['scale', 'diatonic']),
     'C14': dict(streams=['chain']),
